@@ -1,24 +1,47 @@
 (** C12 - assemble / clear / backport / delete / write round-trips preserve the model.
 
-    The statements are about the state machine of Model/C12_MeshLife.v with the four repairs in
+    The statements are about the state machine of Model/C12_MeshLife.v with the five repairs in
     ([fixed]); they hold for every value of the constant tables ([tb]), every store of operations and
     every history.  The model is tied to the working tree by the history correspondence of the check
     (model evaluated inside Coq on the histories the implementation was run on) and by the tables of
     Gen/C12/Tables.v, regenerated on every run and checked below against the reference hexahedron. *)
 From Coq Require Import List Bool Arith ZArith.
 From CB Require Model.Propagate Model.C12_Regrade Proofs.PropagateTerm Proofs.PropagateFinal Proofs.C12_Regrade Proofs.C12_Tolerance.
-From CB Require Import Base.Hex Model.C12_MeshLife Proofs.C12_Lists Proofs.C12_MeshLife Proofs.C12_Refute.
+From CB Require Import Base.Hex Model.C12_MeshLife Proofs.C12_Lists Proofs.C12_MeshLife Proofs.C12_Roundtrip Proofs.C12_Refute.
 From CB Require Import Gen.C12.Tables.
 Import ListNotations.
 Open Scope nat_scope.
 
 (** ** statements *)
 
-(** clear undoes assemble and nothing else; assembling again gives the single assembly back,
-    patch types and settings set through the mesh included (they are part of [c]) *)
+(** THE ROUND TRIP on every assembled state a history leads to (fixes/C12-5b.diff, PatchList.rank): take ANY history
+    [h0] from an empty mesh, clear and assemble (this is also what backport does), then modify_patch (on patches the
+    assembly created, on new names, repeatedly), set_default_patch and write in any number and order [h] - depot,
+    operations and deleted set as they were at the assembly.  The file written after one more [clear] is the file
+    written without it: same vertices, blocks and gradings, the same patches IN THE SAME ORDER with the same types,
+    settings and faces, same default patch and merged pairs; if one write fails, both fail alike. *)
+Definition C12_roundtrip_stmt : Prop :=
+  forall tb store h0 s0 h s,
+    steps fixed tb (init store) h0 = Some s0 ->
+    is_assembled (assemble tb (clear fixed s0)) = true ->
+    steps fixed tb (assemble tb (clear fixed s0)) h = Some s -> forallb quiet h = true ->
+    same_result (write fixed tb (clear fixed s)) (write fixed tb s).
+(** the same from any cleared, well-formed state (no history needed): distinct patch names, every patch ranked *)
+Definition C12_roundtrip_from_clean_stmt : Prop :=
+  forall tb c h s, clean c -> pnodup c -> ranked c -> is_assembled (assemble tb c) = true ->
+    steps fixed tb (assemble tb c) h = Some s -> forallb quiet h = true ->
+    same_result (write fixed tb (clear fixed s)) (write fixed tb s).
+(** before fixes/C12-5b.diff this was false: 'boundary' was written in dictionary order and clear keeps the modified
+    patches in the dictionary, so after the round trip they precede the re-created ones *)
+Definition C12_roundtrip_before_rank_stmt : Prop := roundtrip_law before_rank.
+
+(** on a mesh not touched since its assembly, as equalities of states: clear undoes assemble and nothing else (the
+    ranks given to the new patch names stay: they place the patches of the next assembly); assembling again gives the
+    single assembly back, patch types and settings set through the mesh included (they are part of [c]) *)
 Definition C12_clear_assemble_stmt : Prop :=
   forall tb c, clean c ->
-    clear fixed (assemble tb c) = c /\ assemble tb (clear fixed (assemble tb c)) = assemble tb c.
+    clear fixed (assemble tb c) = with_rank c (prank (assemble tb c))
+    /\ assemble tb (clear fixed (assemble tb c)) = assemble tb c.
 
 (** from any state whatsoever clear leads to a clean state with the same depot, operations, deleted
     set, default patch, merged pairs and the same type/settings of every modified patch *)
@@ -173,6 +196,18 @@ Definition C12_tables_stmt : Prop :=
   /\ axis_pairs tb = Propagate.axis_pairs.
 
 (** ** theorems *)
+Theorem C12_roundtrip : C12_roundtrip_stmt.
+Proof. exact roundtrip_reachable. Qed.
+
+Theorem C12_roundtrip_from_clean : C12_roundtrip_from_clean_stmt.
+Proof.
+  intros tb c h s Hc Hn Hr Ha H Q. apply good_roundtrip.
+  apply (good_steps tb h (assemble tb c) s); [apply good_assemble; assumption|exact Q|exact H].
+Qed.
+
+Theorem C12_roundtrip_before_rank_refuted : ~ C12_roundtrip_before_rank_stmt.
+Proof. exact roundtrip_before_rank_refuted. Qed.
+
 Theorem C12_clear_assemble : C12_clear_assemble_stmt.
 Proof. intros tb c H. split; [exact (clear_assemble_id tb c H)|exact (clear_assemble tb c H)]. Qed.
 
@@ -268,6 +303,9 @@ Proof.
   split; vm_compute; reflexivity.
 Qed.
 
+Print Assumptions C12_roundtrip.
+Print Assumptions C12_roundtrip_from_clean.
+Print Assumptions C12_roundtrip_before_rank_refuted.
 Print Assumptions C12_clear_assemble.
 Print Assumptions C12_clear_keeps_user.
 Print Assumptions C12_patch_props_persist.
